@@ -26,7 +26,8 @@ META = {
             "path parameter (symbolic differentiation), also for the limiting branch; Path uses r = 0.4*16/(0.1 - logx) and the "
             "offset 1 exactly for singlet-like sectors (QuadKerBase.path truth table over all mode0 values in use); the "
             "integrand is prefactor * basis(N) * jacobian with prefactor -i/pi, and zero at logx = 0."
-            " Regimes with the inversion point a relative 1e-7 from an edge are included (library tolerance rules applied to concrete operands).",
+            " Regimes with the inversion point a relative 1e-7 from an edge are included (library tolerance rules applied to concrete operands)."
+            " Conditions on the size of Re N are decided at both ends of the contour (Re N = +200, -200); the two-area rule runs for the point below, inside either, and above the areas.",
     "note": "Claimed at level 'other': these are necessary conditions of the inversion statement, not the inversion itself.",
     "technique": "partial evaluation + polynomial identity testing with a self-validated antiderivative oracle (DAG differentiation); inf/NaN poison abstract interpretation; truth table",
     "engine": "sa",
